@@ -201,7 +201,7 @@ fn run_agg(plan: &Plan, lib: &dyn Lib, rec: &mut Rec) {
     };
     let agg_pt = Pt::from_bytes(&agg[1..]);
     let exact: Vec<(Vec<u8>, Vec<u8>)> = arrived_idx.iter().map(|i| (ss[*i].pk.clone(), ss[*i].msg.clone())).collect();
-    let mut decide = |rec: &mut Rec, list: &[(Vec<u8>, Vec<u8>)], label: &str, must: Option<bool>| {
+    let decide = |rec: &mut Rec, list: &[(Vec<u8>, Vec<u8>)], label: &str, must: Option<bool>| {
         let out = agg_verify(rec, lib, g, &agg, list);
         let exp = match (to_pairs(list), &agg_pt) {
             (Some(p), Some(a)) => b.aggregate_verify(Scheme::from_u8(scheme), &p, a),
@@ -337,7 +337,7 @@ fn run_multi(plan: &Plan, lib: &dyn Lib, rec: &mut Rec) {
     rec.case(&[7, g as u64, scheme as u64, arrived.len() as u64, (arrived.len() != n) as u64, plan.faults.len() as u64], arrived.len() != n || plan.faults.len() > 1);
     rec.expect("C07", "multisig-is-group-sum", ms == want, || format!("sum scheme={} g={} | n={} (arrivals {:?}): the multi-signature is not the group sum of the accumulated parts", sch, g.name(), arrived.len(), arrived));
     let pk_of = |idx: &[usize]| -> Vec<Vec<u8>> { idx.iter().map(|i| ss[*i].pk.clone()).collect() };
-    let mut verify_with = |rec: &mut Rec, keys: &[Vec<u8>], m: &[u8]| -> bool {
+    let verify_with = |rec: &mut Rec, keys: &[Vec<u8>], m: &[u8]| -> bool {
         let args: Vec<&[u8]> = keys.iter().map(|k| k.as_slice()).collect();
         let Some(mpk) = rec.call(lib, g, Op::MultiPk, &args).first().map(|v| v.to_vec()) else { return false };
         rec.call(lib, g, Op::MultiVerify, &[&ms, &mpk, m]).is_ok()
